@@ -32,6 +32,85 @@ pub fn run(r: &mut Report) {
             Err(e) => r.case("predicate-recognised", json!({"type": ty, "doc": doc}), "parses", format!("Err({})", e), false),
         }
     }
+    // every optional field of the SLSA predicates in three states (absent / "falsy" value / ordinary value), one field at a time
+    // and all together: whatever parses must serialise to something that parses back to an equal value, and re-serialise identically
+    {
+        fn set(doc: &mut Value, path: &[&str], v: Option<Value>) {
+            let mut cur = doc;
+            for k in &path[..path.len() - 1] {
+                if !cur.get(*k).map(|x| x.is_object()).unwrap_or(false) { cur[*k] = json!({}); }
+                cur = cur.get_mut(*k).unwrap();
+            }
+            let last = path[path.len() - 1];
+            match v { Some(v) => { cur[last] = v; } None => { if let Some(o) = cur.as_object_mut() { o.remove(last); } } }
+        }
+        let ts = json!("2021-03-04T05:06:07Z");
+        // (path, falsy, ordinary)
+        let meta: Vec<(Vec<&str>, Value, Value)> = vec![
+            (vec!["metadata", "buildInvocationId"], json!(""), json!("id-1")),
+            (vec!["metadata", "buildStartedOn"], json!("1970-01-01T00:00:00Z"), ts.clone()),
+            (vec!["metadata", "buildFinishedOn"], json!("2021-03-04T05:06:07+02:00"), ts.clone()),
+            (vec!["metadata", "completeness", "arguments"], json!(false), json!(true)),
+            (vec!["metadata", "completeness", "environment"], json!(false), json!(true)),
+            (vec!["metadata", "completeness", "materials"], json!(false), json!(true)),
+            (vec!["metadata", "reproducible"], json!(false), json!(true)),
+            (vec!["materials"], json!([]), json!([{"uri": "u", "digest": {"sha256": "00"}}, {}, {"digest": {}}])),
+        ];
+        let mut v01 = meta.clone();
+        v01.extend(vec![
+            (vec!["recipe", "type"], json!(""), json!("https://r")),
+            (vec!["recipe", "definedInMaterial"], json!(0), json!(3)),
+            (vec!["recipe", "entryPoint"], json!(""), json!("build.sh")),
+            (vec!["recipe", "arguments"], json!(""), json!("-x")),
+            (vec!["recipe", "environment"], json!(""), json!("E=1")),
+        ]);
+        let mut v02 = meta.clone();
+        v02.extend(vec![
+            (vec!["invocation", "configSource", "uri"], Value::Null, json!("git+https://x")),
+            (vec!["invocation", "configSource", "digest"], json!({}), json!({"sha1": "ab"})),
+            (vec!["invocation", "configSource", "entryPoint"], json!(""), json!("ci.yml")),
+            (vec!["invocation", "parameters"], json!(""), json!("p")),
+            (vec!["invocation", "environment"], json!(""), json!("e")),
+            (vec!["buildConfig"], json!(""), json!("cfg")),
+        ]);
+        let mut total = 0; let mut bad = 0;
+        for (ty, base, fields) in [("slsa-v0.1", json!({"builder": {"id": "https://b"}}), v01), ("slsa-v0.2", json!({"builder": {"id": "https://b"}, "buildType": "https://t"}), v02)] {
+            let mut docs: Vec<(String, Value)> = vec![("all-absent".into(), base.clone())];
+            for state in 0..2 {
+                let mut all = base.clone();
+                for (path, falsy, ord) in &fields { set(&mut all, path, Some(if state == 0 { falsy.clone() } else { ord.clone() })); }
+                docs.push((format!("all-{}", if state == 0 { "falsy" } else { "ordinary" }), all.clone()));
+                for (path, falsy, ord) in &fields {
+                    // one field differs from the rest
+                    let mut d = all.clone();
+                    set(&mut d, path, Some(if state == 0 { ord.clone() } else { falsy.clone() }));
+                    docs.push((format!("{}-flipped-in-all-{}", path.join("."), state), d));
+                    let mut d2 = all.clone();
+                    set(&mut d2, path, None);
+                    docs.push((format!("{}-absent-in-all-{}", path.join("."), state), d2));
+                    let mut d3 = base.clone();
+                    set(&mut d3, path, Some(if state == 0 { falsy.clone() } else { ord.clone() }));
+                    docs.push((format!("only-{}-{}", path.join("."), state), d3));
+                }
+            }
+            for (id, doc) in docs {
+                let first: Result<PredicateWrapper, _> = serde_json::from_str(&doc.to_string());
+                if let Ok(p) = &first {
+                    total += 1;
+                    let text = serde_json::to_string(p).unwrap();
+                    let again: Result<PredicateWrapper, _> = serde_json::from_str(&text);
+                    let text2 = again.as_ref().ok().map(|a| serde_json::to_string(a).unwrap());
+                    let ok = again.as_ref().ok() == Some(p) && text2.as_deref() == Some(text.as_str());
+                    if !ok {
+                        bad += 1;
+                        r.case("optional-field-roundtrip", json!({"format": ty, "variant": id, "doc": doc}), "parses back to an equal value, identical re-serialisation",
+                               format!("serialised={} equal={}", text, again.as_ref().ok() == Some(p)), false);
+                    }
+                }
+            }
+        }
+        r.case("optional-field-matrix", json!({"accepted_documents": total}), "all round-trip", format!("{} failures", bad), bad == 0 && total >= 30);
+    }
     // building a naive statement carries name, artifacts, command, byproducts and environment over unchanged
     {
         use in_toto::models::{LinkMetadataBuilder, byproducts::ByProducts, step::Command};
